@@ -1395,6 +1395,10 @@ private:
 
     while (QUILL_UNLIKELY(found_invalid_and_empty_thread_context != std::end(_active_thread_contexts_cache)))
     {
+      // report the drop / blocking counts first: the thread has exited, so its counter is final, and the
+      // context that is removed below takes the counter with it
+      _check_failure_counter(_options.error_notifier);
+
       // if we found anything then remove it - Here if we have more than one to remove we will
       // try to acquire the lock multiple times, but it should be fine as it is unlikely to have
       // that many to remove
